@@ -92,14 +92,20 @@ func (sr *siblingRouter) mirror(db *storage.CacheDB, st *powState, hdrs map[ecom
 	if st.hasCur {
 		db.Put(utils.ConcatKey(c, []byte(hscom.CURRENT_HEADER_HEIGHT), cid), cstates.GenRawStorageItem(utils.GetUint64Bytes(st.cur)))
 	}
+	// every stored header (side branches and replaced blocks included) goes into the sibling's header index ...
+	rhash := map[ecom.Hash]ecom.Hash{}
+	for hash, h := range hdrs {
+		rh, rec := sr.record(h, st.index[hash].td)
+		rhash[hash] = rh
+		db.Put(utils.ConcatKey(c, []byte(hscom.HEADER_INDEX), cid, rh.Bytes()), cstates.GenRawStorageItem(rec))
+	}
+	// ... and the canonical height -> hash assignments up to the head (these stores delete the entries above a new head)
 	for height, hash := range st.main {
-		h := hdrs[hash]
-		if h == nil {
+		rh, ok := rhash[hash]
+		if !ok || height > st.cur {
 			continue
 		}
-		rh, rec := sr.record(h, st.index[hash].td)
 		db.Put(utils.ConcatKey(c, []byte(hscom.MAIN_CHAIN), cid, utils.GetUint64Bytes(height)), cstates.GenRawStorageItem(rh.Bytes()))
-		db.Put(utils.ConcatKey(c, []byte(hscom.HEADER_INDEX), cid, rh.Bytes()), cstates.GenRawStorageItem(rec))
 	}
 }
 
